@@ -63,6 +63,28 @@ let fspec_of_string (s : string) =
     ((fk, shape), o)
   | _ -> failwith ("field spec " ^ s)
 
+(* descriptor model of Model/GenDeps.v from the runner's rendering (see depSpec in geneng.go) *)
+let dfile_of_string (s : string) : dfile =
+  let open Sexp in
+  let atom = function A a -> a | L _ -> failwith "dep spec: atom expected" in
+  let tref a = if a = "-" then None else Some (name_of_string a) in
+  let enums = function L (A "E" :: es) -> List.map (fun e -> name_of_string (atom e)) es | _ -> failwith "dep spec: (E ..)" in
+  let exts = function
+    | L (A "X" :: xs) ->
+      List.map (function L [ A "x"; A e; A t ] -> { x_extendee = name_of_string e; x_type = tref t } | _ -> failwith "dep spec: (x ..)") xs
+    | _ -> failwith "dep spec: (X ..)" in
+  let rec msg = function
+    | L [ A "M"; A full; e; x; L (A "R" :: rs); L (A "N" :: ns) ] ->
+      DM (name_of_string full, enums e, exts x, List.map (fun r -> tref (atom r)) rs, List.map msg ns)
+    | _ -> failwith "dep spec: (M ..)" in
+  match parse s with
+  | [ L [ A "F"; e; x; L (A "MS" :: ms); L (A "SV" :: svs) ] ] ->
+    { df_enums = enums e; df_exts = exts x; df_msgs = List.map msg ms;
+      df_services = List.map (function
+          | L (A "S" :: mes) -> List.map (function L [ A "m"; A i; A o ] -> { me_in = name_of_string i; me_out = name_of_string o } | _ -> failwith "dep spec: (m ..)") mes
+          | _ -> failwith "dep spec: (S ..)") svs }
+  | _ -> failwith "dep spec: (F ..)"
+
 let gen_eval (fn : string) (args : string list) : string =
   match fn, args with
   | "GENID", [ "md"; g ] -> let g = name_of_string (unbr g) in law "go_ok" (go_ok g); string_of_name (md_ident g)
@@ -101,6 +123,31 @@ let gen_eval (fn : string) (args : string list) : string =
     let spec = unbr spec in
     let fields = if spec = "" then [] else List.map fspec_of_string (String.split_on_char ' ' spec) in
     (match size_method_opens fields with Some n -> string_of_int (int_of_n n) | None -> "panic")
+  | "GENBR", [ t; spec ] ->
+    let spec = unbr spec in
+    let fields = if spec = "" then [] else List.map fspec_of_string (String.split_on_char ' ' spec) in
+    let t = (match t with
+        | "has" -> THas | "clear" -> TClear | "get" -> TGet | "set" -> TSet | "mutable" -> TMutable | "newfield" -> TNewField
+        | "range" -> TRange | "whichoneof" -> TWhichOneof | "marshal" -> TMarshal | "unmarshal" -> TUnmarshal
+        | s -> failwith ("template " ^ s)) in
+    List.iter (fun ((fk, sh), o) ->
+        match field_toks t fk sh (o <> None) with
+        | Some l -> law "templates_total2" (balanced l)
+        | None -> law "templates_total2_defined" false) fields;
+    (match method_opens t fields with Some n -> string_of_int (int_of_n n) | None -> "panic")
+  | "GENDEPIDX", [ spec ] ->
+    let f = dfile_of_string spec in
+    let t = gen_tables f in
+    let declared = all_enums f @ List.map dm_full (all_messages f) in
+    law "declared_names_unique" (List.length (List.sort_uniq compare declared) = List.length declared);
+    (* the statement of dep_indexes_resolve, evaluated on the case *)
+    List.iteri (fun k r ->
+        let o = int_of_n (List.nth (offsets f) k) in
+        List.iteri (fun i n ->
+            let p = List.nth t.depIdxs (o + i) in
+            law "dep_indexes_resolve" (p = pos t.goTypes n && List.nth t.goTypes (int_of_n p) = n)) r)
+      (sublists f);
+    String.concat "," (List.map string_of_name t.goTypes) ^ "|" ^ String.concat "," (List.map (fun i -> string_of_int (int_of_n i)) t.depIdxs)
   | _ -> raise Not_found
 
 let () = Driver.register gen_eval
